@@ -67,9 +67,10 @@ class FixedList(Spec):
 
 
 class Loop:
-    def __init__(self, decreases=None, types=None, **clauses):
+    def __init__(self, decreases=None, types=None, modifies=None, **clauses):
         self.clauses = list(clauses.items())
         self.decreases = decreases
+        self.modifies = list(modifies or [])   # extra heap locations written through callees, e.g. "data._data"
         self.types = types or {}   # shapes for havoc of locals whose current value does not reveal them
 
 
